@@ -1,0 +1,53 @@
+//go:build verif
+
+// Contracts for package governance, configuration updates (C14 "a configuration change is applied exactly once, only for a
+// passed proposal"): the write side of the option records. Comment-only file, read by /verif/govc.
+
+package governance
+
+// govWrites(st): ghost counter of writes to the option records of the governance store (every Set...Options and SetLUH
+// adds one). "Nothing was written" is then govWrites unchanged - independent of how the record keys are built.
+//@ model govWrites(*Store) int
+
+// re-aiming at a height: only the height field (the version tag of the next option write)
+//@ func (*Store).WithHeight
+//@   requires st != nil
+//@   modifies st.height
+//@   ensures result == st && st.height == height
+
+// typed write of one option record / of a last-update-height entry (assumed like the typed reads: one Set under one key)
+//@ assume func (*Store).SetFeeOption
+//@   modifies govWrites(st), vHas(st.state), vVal(st.state)
+//@   ensures govWrites(st) == old(govWrites(st)) + 1
+//@ assume func (*Store).SetEvidenceOptions
+//@   modifies govWrites(st), evOpt(st), vHas(st.state), vVal(st.state)
+//@   ensures govWrites(st) == old(govWrites(st)) + 1
+//@ assume func (*Store).SetStakingOptions
+//@   modifies govWrites(st), stkOpt(st), stkOptOK(st), vHas(st.state), vVal(st.state)
+//@   ensures govWrites(st) == old(govWrites(st)) + 1
+//@ assume func (*Store).SetONSOptions
+//@   modifies govWrites(st), vHas(st.state), vVal(st.state)
+//@   ensures govWrites(st) == old(govWrites(st)) + 1
+//@ assume func (*Store).SetProposalOptions
+//@   modifies govWrites(st), propOpt(st), allmodel(optVD), allmodel(optPass), vHas(st.state), vVal(st.state)
+//@   ensures govWrites(st) == old(govWrites(st)) + 1
+//@ assume func (*Store).SetLUH
+//@   modifies govWrites(st), stkOptOK(st), vHas(st.state), vVal(st.state)
+//@   ensures govWrites(st) == old(govWrites(st)) + 1
+
+//@ assume func (*Store).GetFeeOption
+//@   modifies nothing
+//@   ensures err == nil ==> result0 != nil && fresh(result0)
+//@   ensures err != nil ==> result0 == nil
+
+// the validators compare a candidate option set with the stored one and with fixed ranges: they read, they do not write
+//@ assume func (*Store).ValidateEvidence
+//@   modifies nothing
+//@ assume func (*Store).ValidateFee
+//@   modifies nothing
+//@ assume func (*Store).ValidateONS
+//@   modifies nothing
+//@ assume func (*Store).ValidateProposal
+//@   modifies nothing
+//@ assume func (*Store).ValidateStaking
+//@   modifies nothing
